@@ -29,7 +29,9 @@ def gen_op(rng, quick):
     cap = rng.choice([0, 100, 255, 256, 257, 400, 1000, 4000, 20000, 110000])
     k = rng.choice([0, 1, 8, 16, 50, 200, 1024, 2000, 5000, 100000]) if algo not in ("finalize", "addent") else rng.choice([0, 1, 7, 8, 9, 100, 1024, 1500, 3000, 50000])
     d = rng.choice([0, 6, 8, 8, 8, 7, 16, 300])
-    f = rng.choice([0, 1, 10, 16, 20, 31, 32])
+    # f = 31 is legal but makes fastCover allocate and sweep 2^31-entry tables (20 GiB per attempt): a resource demand, not a hang - the
+    # largest table trained for real is 2^26 entries; 32 (rejected at once) stays
+    f = rng.choice([0, 1, 10, 16, 20, 26, 32])
     accel = rng.choice([0, 1, 1, 2, 5, 10, 11])
     steps = rng.choice([0, 1, 3, 4, 8]) if quick else rng.choice([0, 1, 4, 10, 40])
     split = rng.choice([100, 100, 75, 50, 1, 0, 101])
@@ -52,6 +54,8 @@ def run_each(exe, ops, timeout=900, env=None):
             lines = [l for l in lines if l]
             res += [(l, None) for l in lines[:len(chunk) - i]]
             i += len(lines)
+            if lines and lines[-1].startswith("res=HANG"):
+                continue        # the alarm handler printed the verdict for that operation and ended the process: restart with the next one
             if i < len(chunk):
                 res.append((None, "exit %d: %s" % (rc, err[-1500:])))
                 i += 1
